@@ -132,6 +132,9 @@ impl Engine for CmpEngine {
             mk("setvar($74,array([int(#1),int(#2)])),foreach($69,$6b,$76,readvar($74),composite($5f,[setglobal($67,readvar($76))]))"),
             mk("setvar($78,int(#5)),setvar($66,closure([$61],[return(add(readvar($61),readvar($78)))])),setglobal($67,dyncall([int(#1)],readvar($66)))"),
             mk("ifelse(int(#1),setglobal($61,int(#1)),setglobal($61,int(#2))),while(int(#0),comment($78)),iftrue(nil,abort),iffalse(nil,comment($79))"),
+            // known finding K3: a reference to the entry function compiles, but `main` has no label
+            vec!["cmp wf mod([],[fn($6d61696e,[],[setglobal($67,function($6d61696e))])],[])".to_string()],
+            vec!["cmp wf mod([],[fn($6d61696e,[],[setglobal($67,int(#1))]),fn($66,[],[return(call($6d61696e,[]))])],[])".to_string()],
         ]
     }
 
